@@ -1,6 +1,6 @@
 (** C10 - Every item `ls` shows can be addressed by the names shown; other paths say so.
     Property theorems only. *)
-From SE Require Import Base Codecs Cue Names NamesProofs PathProofs NamesMoreProofs.
+From SE Require Import Base Codecs Cue Names NamesProofs PathProofs NamesMoreProofs NamesTotalProofs.
 
 (** Sibling names printed by `ls` (make_safe_names) are pairwise distinct, one per item, for
     ANY raw names... *)
@@ -8,6 +8,19 @@ Theorem ls_names_distinct :
   forall elems names, make_safe_names elems = Ok names -> NoDup names /\ length names = length elems.
 Proof. intros elems names. apply sanitize_names_distinct_lemma. Qed.
 Print Assumptions ls_names_distinct.
+
+(** The naming routines ALWAYS succeed: for any sibling list whatsoever (any raw names, any number of
+    identical ones) every item is given a printed name and an export name - never
+    CouldNotDetermineName, never out of fuel (pigeonhole on the set of names already taken) - and
+    the names are pairwise distinct.  So every item `ls` shows has a name by which it can be addressed. *)
+Theorem ls_names_always_assigned :
+  forall elems, exists names, make_safe_names elems = Ok names /\ NoDup names /\ length names = length elems.
+Proof. intros elems. apply sanitize_names_ok_lemma. Qed.
+Print Assumptions ls_names_always_assigned.
+Theorem export_names_always_assigned :
+  forall elems, exists names, make_export_names elems = Ok names /\ NoDup names /\ length names = length elems.
+Proof. intros elems. apply sanitize_names_ok_lemma. Qed.
+Print Assumptions export_names_always_assigned.
 
 (** ...and contain neither "/" nor "\", so a printed name is never split by the tokenizer. *)
 Theorem ls_names_no_separator :
